@@ -346,7 +346,10 @@ def wt_worker(args):
             again = r.render(Document(out))
         with MarkdownRenderer(max_line_length=L, normalize_whitespace=True) as r:
             nout = r.render(Document(text))
-        return [out, again, mistletoe.markdown(text), mistletoe.markdown(out), nout, mistletoe.markdown(nout)]
+        with MarkdownRenderer(normalize_whitespace=True) as r:
+            n0 = r.render(Document(text))
+            n1 = r.render(Document(n0))
+        return [out, again, mistletoe.markdown(text), mistletoe.markdown(out), nout, mistletoe.markdown(nout), n0, n1, mistletoe.markdown(n0)]
     except Exception as e:
         return 'EXC %s: %s' % (type(e).__name__, e)
 
@@ -541,6 +544,10 @@ def run(ctx, only=None):
             if r[4] != nwant:
                 ctx.failing.append({'interface': 'oracle(word trees)', 'input': ninp, 'what': 'with normalize_whitespace the reflowed text is not the tree with one space after every marker, its paragraphs regrouped under their budgets',
                                     'observed': r[4], 'expected': nwant, 'kf': None})
+            elif r[6] != '\n'.join(wt_spell(wt_norm(t))) + '\n' or r[7] != r[6] or r[8] != r[2]:
+                ctx.failing.append({'interface': 'oracle(word trees)', 'input': {'text': src, 'normalize_whitespace': True},
+                                    'what': 'with normalize_whitespace and no limit the text is not the tree with one space after every marker, or rendering it again changes it, or its HTML differs (C09_normalize_whitespace_round_trip)',
+                                    'observed': [r[6], r[7], r[8]], 'expected': ['\n'.join(wt_spell(wt_norm(t))) + '\n', r[2]], 'kf': None})
             elif unl(r[2]) != unl(r[5]):
                 ctx.failing.append({'interface': 'oracle(word trees)', 'input': ninp, 'what': 'the HTML of the normalized, reflowed text differs from the original by more than line endings',
                                     'observed': r[5], 'expected': r[2], 'kf': None})
